@@ -203,8 +203,19 @@ def r4_heap_layout(ctx):
     r.check(s == "Executor::new($1, hm)", "result", "Executor::new(instrs, heap)", "returns %s" % s)
     ex = ctx.body("melvm::Covenant::execute", r)
     rr = q.ret_assignments(ex)
-    s = sig(rr[0][2]) if rr else "?"
-    r.check(s == "Executor::run_to_end(mutated(Executor::new_from_env(std::slice::<impl [T]>::to_vec($1.0), $2, $3)))", "execute", "execute = new_from_env(self.ops, tx, env).run_to_end()", "execute returns %s" % s)
+    rv = mir.strip(rr[0][2]) if rr else ("unknown", "")
+    s = sig(rv)
+    # run_to_end of an executor built by new_from_env(copy of self.0, tx, env): the executor may be bound to a variable, the copy spelled to_vec()/clone()
+    okx = False
+    if q.is_call(rv, "Executor::run_to_end"):
+        x = mir.strip(rv[2][0])
+        if x[0] == "var":
+            ds = q.var_def_exprs(ex, x[1])
+            x = mir.strip(ds[0][1]) if len(ds) == 1 else x
+        if q.is_call(x, "Executor::new_from_env"):
+            a0 = sig(mir.strip(x[2][0]))
+            okx = a0 in ("std::slice::<impl [T]>::to_vec($1.0)", "$1.0") and sig(x[2][1]) == "$2" and sig(x[2][2]) == "$3"
+    r.check(okx, "execute", "execute = new_from_env(self.ops, tx, env).run_to_end()", "execute returns %s" % s)
 
 
 RULES = [r1_no_bypass, r2_verdict, r3_environment, r4_heap_layout]
